@@ -455,7 +455,7 @@ impl WorldA {
         // opcode byte (address of the last M1) as the reference
         let last_m1 = |ev: &Vec<Ev>| ev.iter().rev().find_map(|e| if let Ev::Rd { clk: 4, addr, .. } = e { Some(*addr) } else { None });
         let ref_last = last_m1(&self.rbus.ev);
-        while (self.cpu.verif_prefix_pending() || (info.ignored_prefixes > 0 && guard < 2 * info.ignored_prefixes as usize + 2 && last_m1(&self.bus.ev) != ref_last)) && guard < 4096
+        while (self.cpu.verif_prefix_pending() || (info.ignored_prefixes > 0 && guard < 2 * info.ignored_prefixes as usize + 2 && last_m1(&self.bus.ev) != ref_last)) && guard < 140_000
         {
             self.cpu.emulate(&mut self.bus);
             self.bus.commit_samples();
